@@ -30,11 +30,14 @@ RULE = ('plumbing: random array / list / dict / None seeds (in-range, out-of-ran
         'get_values, stack_values, get_adjacency_values (values, values_row, values_col in every combination, also values '
         'together with values_row / values_col) x which in {None, probs, labels}; block construction: random rectangular / '
         'square matrices <= 4x4 with unsorted indices, duplicate entries (some cancelling), stored zeros, float / int data (bool: '
-        'stored zeros, no duplicates), csr / csc / coo / dense containers, empty matrices; _split_vars of the 6 base classes on random vectors / '
-        'matrices; relation: exhaustive 0/1 biadjacency matrices up to 2x3 / 3x2 (quick: sampled) and random weighted '
-        'rectangular / square+force_bipartite matrices up to 6x6 (float / int / bool, csr / unsorted csr / csc / dense) x '
+        'stored zeros, sorted indices, no duplicates), csr / csc / coo / dense containers, empty matrices; _split_vars of the 6 base classes on random vectors / '
+        'matrices; relation: exhaustive 0/1 biadjacency matrices of the shapes 1x1, 1x2, 2x1, 1x3, 3x1, 1x4, 2x2, 2x3, 3x2 '
+        '(quick: sampled) and random weighted rectangular / square+force_bipartite matrices 1..6 a side, one in twelve 7..14 a '
+        'side (float / int / bool; csr / unsorted csr / csc / dense / csr with stored zeros, mirrored in the reference block) x '
         'seed placements (none; row only, column only, both; dict, array, list; suffixed keywords, unsuffixed keyword for the '
-        'rows, unsuffixed together with *_col; flag given or implied) x every entry of the table. A relation case is '
+        'rows, unsuffixed together with *_col; an empty dict on one side; flag given or implied; Spectral also on square '
+        'non-symmetric matrices without the flag) x every entry of the table; predict / predict_proba / transform with '
+        'columns=False / True and fit_predict on B against the attributes. A relation case is '
         'non-trivial when B has an edge, both forms returned and some compared output of the block fit is not constant '
         '(a dendrogram: has at least two merges); a plumbing case when a seed / a stored entry is given; '
         'distinct = distinct (entry, matrix, container, seeds)')
@@ -45,7 +48,10 @@ ASSUMPTIONS = ['deterministic configurations only (shuffle_nodes=False, random_s
                'documented row-only defaults are deviations from the literal statement and recorded as known findings, each '
                'with a compensating exact comparison: F-C03-barber (Louvain / Leiden modularity="dugue" = directed block), '
                'F-C03-default-rows (no seeds on bipartite input = rows only: PageRank, Diffusion, Dirichlet)',
-               'scipy: csr_matrix(ndarray), np.block, sparse.bmat, tocsr (adds up duplicates), sort_indices']
+               'scipy: csr_matrix(ndarray), np.block, sparse.bmat, tocsr (adds up duplicates), sort_indices',
+               'at estimator level B has no duplicate entries; explicitly stored zeros are mirrored in the reference block '
+               '(Propagation / PropagationClustering count a stored zero as a neighbour, on plain graphs alike: C13, not the '
+               'bipartite plumbing)']
 DRIVE_MODULES = ['SkNet.Drive.C03', 'SkNet.Drive.C10']
 TOL_ENTRIES = {'Spectral': 1e-9, 'PageRank/lanczos': 1e-9, 'PageRank/bicgstab': 1e-9}
 
@@ -416,7 +422,7 @@ def _table():
         T.append(Entry('KCenters', 'both,n_init=%d' % ni,
                        (lambda ni=ni: KCenters(n_clusters=2, center_position='both', n_init=ni)), None, True, ['labels'],
                        np_seed=True, custom=_compare_centers, quick_every=3 if ni > 1 else 1))   # 5 restarts: slow
-    T.append(Entry('Paris', '', lambda: Paris(), None, False, ['dendrogram']))
+    T.append(Entry('Paris', '', lambda: Paris(), None, True, ['dendrogram']))
     T.append(Entry('LouvainHierarchy', '', lambda: LouvainHierarchy(shuffle_nodes=False, random_state=0), None, True, ['dendrogram']))
     T.append(Entry('LouvainIteration', '', lambda: LouvainIteration(shuffle_nodes=False, random_state=0), None, True, ['dendrogram']))
     T.append(Entry('Propagation', '', lambda: Propagation(), 'labels', False, ['labels', 'probs']))
@@ -427,6 +433,16 @@ def _table():
     T.append(Entry('Dirichlet', '', lambda: Dirichlet(), 'values', True, ['values']))
     T.append(Entry('Spectral', '', lambda: Spectral(2), None, True, ['embedding']))
     T.append(Entry('RandomProjection', '', lambda: RandomProjection(2, random_state=0), None, True, ['embedding']))
+    # the columns `force_kw` and `kind` are read off the real signatures, so that the table cannot drift from the code
+    import inspect
+    for e in T:
+        params = inspect.signature(type(e.mk()).fit).parameters
+        if ('force_bipartite' in params) != e.force_kw:
+            raise ToolFailure('table of c03.py: %s.fit %s force_bipartite, the table says force_kw=%s'
+                              % (e.name, 'has' if 'force_bipartite' in params else 'has no', e.force_kw))
+        kinds = {k for k in KW if k + '_row' in params}
+        if kinds != ({e.kind} if e.kind else set()):
+            raise ToolFailure('table of c03.py: %s.fit takes the seed keywords %s, the table says kind=%r' % (e.name, sorted(kinds), e.kind))
     return T
 
 
@@ -497,7 +513,8 @@ def _stack_ref(kind, seeds, nr, nc):
     return np.array(arr, dtype=int if kind == 'labels' else float)
 
 
-def _fit_b(est, kind, x, seeds, nr, nc, force):
+def _kw_b(kind, seeds, nr, nc, force):
+    """keyword arguments of the fit on B"""
     kw = {}
     if force:
         kw['force_bipartite'] = True
@@ -515,7 +532,11 @@ def _fit_b(est, kind, x, seeds, nr, nc, force):
         elif seeds['style'] == 'plain+col':
             kw[base] = r
             kw[base + '_col'] = c
-    return est.fit(x, **kw)
+    return kw
+
+
+def _fit_b(est, kind, x, seeds, nr, nc, force):
+    return est.fit(x, **_kw_b(kind, seeds, nr, nc, force))
 
 
 def _fit_a(est, kind, a, stacked):
@@ -596,6 +617,35 @@ def _compare(eb, ea, outs, nr, nc, tol):
     return None
 
 
+def _same_obj(x, y):
+    if x is None or y is None:
+        return x is None and y is None
+    return _eq(_dense(x), _dense(y), 0)
+
+
+def _check_methods(eb, e, x, kw, np_seed):
+    """predict / predict_proba / transform (columns=False / True) and fit_predict / fit_transform on B return the
+    unsuffixed (= row) and the column attributes."""
+    attr = {'scores': 'scores', 'labels': 'labels', 'values': 'values', 'embedding': 'embedding', 'dendrogram': 'dendrogram'}[e.outs[0]]
+    for meth, base in (('predict', attr), ('predict_proba', 'probs'), ('transform', 'probs' if hasattr(eb, 'probs_') else attr)):
+        f = getattr(eb, meth, None)
+        if f is None or (meth == 'predict_proba' and 'probs' not in e.outs):
+            continue
+        if not _same_obj(f(), getattr(eb, base + '_')):
+            return base, 'method-differs', '%s() is not %s_' % (meth, base)
+        import inspect
+        if 'columns' in inspect.signature(f).parameters and not _same_obj(f(columns=True), getattr(eb, base + '_col_')):
+            return base, 'method-differs', '%s(columns=True) is not %s_col_' % (meth, base)
+    if np_seed % 4 == 0 and hasattr(eb, 'fit_predict'):
+        # a second fit through fit_predict (same arguments): returns the unsuffixed (= row) output
+        if e.np_seed:
+            np.random.seed(np_seed)
+        got, err = _try(lambda: e.mk().fit_predict(x, **kw))
+        if err or not _same_obj(got, getattr(eb, attr + '_')):
+            return attr, 'method-differs', 'fit_predict on B is not %s_ (%s)' % (attr, err)
+    return None
+
+
 def _compare_centers(eb, ea, nr, nc):
     """KCenters: centers_ are block-numbered, centers_row_ the ones below n_row, centers_col_ the others minus n_row."""
     cb, ca = np.asarray(eb.centers_), np.asarray(ea.centers_)
@@ -630,7 +680,29 @@ def _try(f):
         w.__exit__(None, None, None)
 
 
+def _zero_positions(dense):
+    """where the 'csr-zeros' container stores explicit zeros: the null entries (i, j) with (i + 2 j) % 3 == 0"""
+    d = np.asarray(dense)
+    return [(i, j) for i in range(d.shape[0]) for j in range(d.shape[1]) if d[i, j] == 0 and (i + 2 * j) % 3 == 0]
+
+
+def _with_stored_zeros(dense, block=False):
+    """B (or its block adjacency, rows first) as CSR with explicit zeros stored at `_zero_positions` (mirrored in the block):
+    built from COO triples here, not by the code under test"""
+    d = np.asarray(dense)
+    nr, nc = d.shape
+    ent = [(i, j, d[i, j]) for i in range(nr) for j in range(nc) if d[i, j] != 0] + [(i, j, 0) for i, j in _zero_positions(d)]
+    if block:
+        ent = [(i, nr + j, v) for i, j, v in ent] + [(nr + j, i, v) for i, j, v in ent]
+    n, m = (nr + nc, nr + nc) if block else (nr, nc)
+    out = sparse.csr_matrix((np.array([e[2] for e in ent], dtype=d.dtype), ([e[0] for e in ent], [e[1] for e in ent])), shape=(n, m))
+    out.sort_indices()
+    return out
+
+
 def _input_of(dense, container, rng_shuffle=None):
+    if container == 'csr-zeros':
+        return _with_stored_zeros(dense)
     m = sparse.csr_matrix(dense)
     if container == 'csr-unsorted':
         for i in range(m.shape[0]):
@@ -657,7 +729,9 @@ def relation_one(tgt, e, dense, container, seeds, np_seed, force_kw_used, outcom
     nr, nc = dense.shape
     square = nr == nc
     x = _input_of(dense, container)
-    a = _block_ref(dense)
+    # stored zeros are part of the input of Propagation / PropagationClustering (a stored zero counts as a neighbour: C13's
+    # matter, on plain graphs alike), so the reference block stores the mirrored zeros
+    a = _with_stored_zeros(dense, block=True) if container == 'csr-zeros' else _block_ref(dense)
     stacked = _stack_ref(e.kind, seeds, nr, nc)
     sig = {'entry': e.name, 'variant': e.variant, 'relation': 'bipartite-as-block', 'seeds': seeds['style']}
     desc = {'f': 'relation', 'entry': e.label, 'biadjacency': {'shape': [nr, nc], 'dense': dense.tolist(), 'dtype': str(dense.dtype),
@@ -701,6 +775,8 @@ def relation_one(tgt, e, dense, container, seeds, np_seed, force_kw_used, outcom
     why = _compare(eb, ea, e.outs, nr, nc, e.tol)
     if why is None and e.custom is not None:
         why = e.custom(eb, ea, nr, nc)
+    if why is None:
+        why = _check_methods(eb, e, x, _kw_b(e.kind, seeds, nr, nc, force_kw_used), np_seed)
     nontrivial = bool(dense.any()) and _nonconstant(ea, e.outs)
     if nontrivial and outcomes is not None:
         outcomes.add(e.label, 'nontrivial')
@@ -764,6 +840,29 @@ def _compare_dugue(eb, fit_a, dense, tol):
     return None
 
 
+def emptydict_one(tgt, e, dense, side, other):
+    """An empty dict on one side (np.min of an empty array): `get_values` refuses `{}` wherever it meets it, so the fit on B
+    with `X_row={}` (or `X_col={}`) beside real seeds on the other side raises ValueError, like `X={}` on the block
+    adjacency does. (Merging the two dicts into one block dict would hide the empty side: theorem
+    `emptydict_refused_both_forms`.)"""
+    dense = np.asarray(dense)
+    nr, nc = dense.shape
+    base = KW[e.kind]
+    kw = {base + '_row': {} if side == 'row' else other, base + '_col': other if side == 'row' else {}}
+    _, err_b = _try(lambda: e.mk().fit(sparse.csr_matrix(dense), **kw))
+    _, err_a = _try(lambda: e.mk().fit(_block_ref(dense), **{base: {}}))
+    sig = {'entry': e.name, 'variant': e.variant, 'relation': 'bipartite-as-block', 'seeds': 'emptydict-' + side}
+    desc = {'f': 'emptydict', 'entry': e.label, 'side': side, 'other': {str(k): v for k, v in other.items()},
+            'biadjacency': {'shape': [nr, nc], 'dense': dense.tolist(), 'dtype': str(dense.dtype), 'container': 'csr'}}
+    tgt.count('relation:emptydict')
+    tgt.case(('emptydict', e.label, side, dense.shape, tuple(dense.ravel().tolist()), json.dumps(desc['other'], sort_keys=True)), False, None)
+    cb, ca = (err_b or 'no exception').split(':')[0], (err_a or 'no exception').split(':')[0]
+    if cb != ca or cb != 'ValueError':
+        tgt.spec_fail(dict(sig, output='*', reason='refusal-differs'), desc,
+                      {'why': 'an empty dict on one side must be refused (ValueError) in both forms', 'biadjacency_form': err_b,
+                       'block_form': err_a})
+
+
 def relation_cases(ctx, mats, seeds_per=2, sub=None, outcomes=None, only=None):
     """Evaluate the relation for every entry of the table on the given (dense, container) biadjacency matrices."""
     tgt = sub or ctx
@@ -775,6 +874,10 @@ def relation_cases(ctx, mats, seeds_per=2, sub=None, outcomes=None, only=None):
         for e in table:
             if mi % e.quick_every:          # the slow variants run on every third matrix (both tiers)
                 continue
+            if e.kind is not None and rng.random() < 0.2:
+                side = rng.choice(['row', 'col'])
+                n_other = nc if side == 'row' else nr
+                emptydict_one(tgt, e, dense, side, {int(rng.randrange(n_other)): POOL[e.kind][0]})
             seeds = _seed_sets(rng, e.kind, nr, nc)
             if len(seeds) > seeds_per:
                 # the no-seed form (where it exists) in a third of the draws, the rest sampled from the placements
@@ -787,6 +890,10 @@ def relation_cases(ctx, mats, seeds_per=2, sub=None, outcomes=None, only=None):
                 # the flag: needed on a square matrix unless implied; otherwise given half of the time (must not matter)
                 force = e.force_kw and ((square and not implied) or rng.random() < 0.5)
                 relation_one(tgt, e, dense, container, s, rng.randrange(1000), force, outcomes)
+                if e.name == 'Spectral' and square and not np.array_equal(dense, dense.T):
+                    # get_adjacency(allow_directed=False): a square NON-symmetric matrix is a biadjacency matrix by itself
+                    tgt.count('relation:Spectral:square-asymmetric-without-flag')
+                    relation_one(tgt, e, dense, container, s, 0, False, outcomes)
 
 
 # -- structure functions and other functions with their own output forms ---------------------------
@@ -806,7 +913,8 @@ def structure_one(tgt, dense, container, force, outcomes=None):
     dense = np.asarray(dense)
     nr, nc = dense.shape
     x = _input_of(dense, container)
-    a = _block_ref(dense)
+    # scipy's connected_components follows stored zeros (on plain graphs alike): the reference block stores them too
+    a = _with_stored_zeros(dense, block=True) if container == 'csr-zeros' else _block_ref(dense)
     bdesc = {'shape': [nr, nc], 'dense': dense.tolist(), 'dtype': str(dense.dtype), 'container': container}
     kw = {'force_bipartite': True} if force else {}
 
@@ -984,16 +1092,17 @@ def _matrices(ctx, quick, exhaustive_shapes=None, n_random=None):
     """(dense ndarray, container) pairs"""
     rng = ctx.rng
     mats = []
-    shapes = exhaustive_shapes or [(1, 2), (2, 1), (2, 2), (2, 3), (3, 2)]
+    shapes = exhaustive_shapes or [(1, 1), (1, 2), (2, 1), (1, 3), (3, 1), (1, 4), (2, 2), (2, 3), (3, 2)]
     for nr, nc in shapes:
         allb = [es for es in graphs.all_bipartite(nr, nc) if es]
-        if quick and len(allb) > 5:
-            allb = rng.sample(allb, 5)
+        if quick and len(allb) > 4:
+            allb = rng.sample(allb, 4)
         for es in allb:
             mats.append((graphs.csr_from_edges(nr, es, m=nc).toarray(), 'csr'))
     for t in range(n_random if n_random is not None else (12 if quick else 100)):
-        nr = rng.randint(2, 6)
-        nc = nr if rng.random() < 0.35 else rng.randint(2, 6)
+        big = t % 12 == 11                      # one matrix in twelve is larger (7..14 nodes a side)
+        nr = rng.randint(7, 14) if big else rng.randint(1, 6)
+        nc = nr if rng.random() < 0.35 else (rng.randint(7, 14) if big else rng.randint(1, 6))
         es = graphs.random_edges(rng, nr, rng.choice([0.3, 0.5, 0.8]), m=nc)
         if not es:
             continue
@@ -1004,7 +1113,7 @@ def _matrices(ctx, quick, exhaustive_shapes=None, n_random=None):
             d = d.astype(np.int64)
         elif r < 0.3:
             d = d.astype(bool)
-        mats.append((d, rng.choice(['csr', 'csr', 'csr', 'csr-unsorted', 'csc', 'dense'])))
+        mats.append((d, ['csr', 'csr-unsorted', 'csc', 'dense', 'csr-zeros', 'csr', 'csr'][t % 7]))     # every container in every run
         ctx.count('relation-matrix:%s:%s' % (d.dtype, mats[-1][1]))
     return mats
 
@@ -1075,7 +1184,17 @@ def search(ctx, pending):
     first), the structure functions and the routing lines. Failures that only re-find a recorded known finding are
     dropped BEFORE the list is cut."""
     findings = load_findings()
-    have = [f for f in ctx.spec_failures if match_finding(findings, ctx.prop, f['sig']) is None]
+    ents0 = {str((p[1] or {}).get('entry', '')) for p in pending}
+
+    def related(sig):
+        """does this failing input explain a broken tie of one of the pending entries?"""
+        ent = sig.get('entry')
+        if ents0 <= {'get_values', 'stack_values', 'get_adjacency_values'}:
+            return sig.get('seeds') not in (None, 'none')               # a seed-plumbing line: failures that involve seeds
+        if ents0 <= {'get_distances', 'get_shortest_path'}:
+            return ent in ('get_distances', 'get_shortest_path', 'DiffusionClassifier')
+        return sig.get('relation') in ('bipartite-as-block', 'bipartite-attributes')    # block / split / generated obligation
+    have = [f for f in ctx.spec_failures if match_finding(findings, ctx.prop, f['sig']) is None and related(f['sig'])]
     if have:
         # the run itself already holds concrete failing inputs of the property that no recorded finding explains
         return [{'sig': f['sig'], 'case': f['case'], 'detail': f['detail']} for f in have[:3]]
@@ -1145,6 +1264,10 @@ def _replay_case(ctx, case, neighbourhood=True, outcomes=None):
         louvain_embedding_one(ctx, dense, bool(case.get('force_bipartite_keyword')), outcomes)
         if neighbourhood:
             structure_cases(ctx, [(dense, 'csr')])
+    elif f == 'emptydict':
+        bd = case['biadjacency']
+        emptydict_one(ctx, _entry_by_label(case['entry']), np.array(bd['dense']).astype(bd.get('dtype', 'float64')).reshape(bd['shape']),
+                      case['side'], {int(k): v for k, v in case['other'].items()})
     elif f == 'modularity':
         bd = case['biadjacency']
         modularity_one(ctx, np.array(bd['dense']).astype(bd.get('dtype', 'float64')).reshape(bd['shape']), outcomes)
